@@ -9,6 +9,7 @@ export GOFLAGS=-mod=mod GOPROXY=off GOSUMDB=off GOTOOLCHAIN=local
 git -C /repo worktree remove --force $WT >/dev/null 2>&1
 git -C /repo worktree add -q --detach $WT HEAD || { echo "$NAME worktree-failed"; exit 1; }
 cd $WT
+cp go.mod /tmp/demo.mod; cp go.sum /tmp/demo.sum
 DEMO_DIR=$(python3 -c "import json;print(json.load(open('$M/meta.json'))['demo_dir'])")
 DEMO_RUN=$(python3 -c "import json;print(json.load(open('$M/meta.json'))['demo_run'])")
 res="$NAME"
